@@ -16,6 +16,7 @@ def run(tier):
     for e in emits:
         c.replay("kv", e, variant="inmem", extra={"tick_ms": 30}, timeout=2400, workers=400)
         c.replay("kv", e, variant="redis", timeout=2400)
+    expiry_race(c)
     c.assumptions += ["in-memory backend: real clock, 30 ms ticks; calls run at even ticks, expirations sit at odd ticks; a behaviour during "
                       "which the host stalled past its window is re-run with a doubled tick and, after 3 attempts, not judged",
                       "Redis backend: miniredis virtual clock (FastForward), 1 s ticks",
@@ -24,3 +25,29 @@ def run(tier):
                          "time advanced past some expirations up to twice, every operation kind as the first to touch the expired key) "
                          "replayed on both backends; the contract drops expired records at Advance, so any reply that differs between "
                          "'expired' and 'deleted' is a mismatch")
+
+
+def expiry_race(c):
+    """code -> spec: a write of a record without expiration racing the expiry of the record it replaces, with waiters
+    parked on it and the store kept busy across the expiry instant (in-memory backend, real time, outcome-based: no timing
+    assertion is made, only 'what was written without expiration is still there')."""
+    import json
+    n = 60 if c.quick() else 600
+    trace = c.path("trace", "kvexpiry.ndjson")
+    c.run_vh(["drive", "kvexpiry", "-seed", c.seed, "-n", n, "-out", trace], timeout=900)
+    cfg = c.write_cfg("kv", "ExpiryRaceTrace", postcondition="Accepted")
+    ok, at, _ = c.validate_trace("kv", "ExpiryRaceTrace", cfg, trace, label="ExpiryRaceTrace")
+    lines = open(trace).read().splitlines()
+    if ok:
+        c.traces_validated += n
+        c.samples.append({"kind": "expiry-race round accepted by ExpiryRaceTrace.tla", "events": lines[:6]})
+        return
+    start = max(i for i in range(at) if '"e":"round"' in lines[i])
+    ev = json.loads(lines[at - 1])
+    if ev.get("e") == "final":
+        sig = "kv: a record written without expiration was dropped (write racing the expiry of the record it replaced, waiters parked)"
+    elif ev.get("e") == "waitret":
+        sig = "kv: WaitForVersionChange returned %s in the expiry race" % ev.get("res")
+    else:
+        sig = "kv: %s not allowed in the expiry race (%s)" % (ev.get("e"), ev.get("res"))
+    c.report_failure(sig, {"rejected_at_line": at, "history": lines[start:at], "trace": {"comp": "kv", "module": "ExpiryRaceTrace"}})
